@@ -425,3 +425,69 @@ func VerifC06ValueNotARef() {
 	sym.Assert(sym.EqBytes(before["A"], after["A"]), "unrelated-module-named-like-a-value-leaves-identity-unchanged")
 	sym.Assert(sym.EqBytes(before["B"], after["B"]), "unrelated-module-named-like-a-value-leaves-identity-unchanged")
 }
+
+// VerifC06InPlace: the identifier is a function of the module definitions as they are
+// now, not of what the same graph object was asked before: after hashing once, a field
+// of one module (params value, initial block, entrypoint) is changed in place and the
+// modules are hashed again on the SAME ModuleGraph with fresh ModuleHashes; the result
+// equals hashing a freshly built graph of the changed modules.
+func VerifC06InPlace() {
+	shape := sym.Choice("shape", sym.Param("SHAPES", 5))
+	mods, bins := c06Shape(shape)
+	pb := c06Build(mods, bins)
+	graph, err := NewModuleGraph(pb.Modules)
+	if err != nil {
+		sym.Unreachable("graph-ok")
+		return
+	}
+	hashOn := func() (map[string][]byte, bool) {
+		h := NewModuleHashes()
+		out := map[string][]byte{}
+		for _, m := range pb.Modules {
+			d, err := h.HashModule(pb, m, graph)
+			if err != nil {
+				return nil, false
+			}
+			out[m.Name] = d
+		}
+		return out, true
+	}
+	if _, ok := hashOn(); !ok {
+		sym.Unreachable("first-hashing-ok")
+		return
+	}
+	t := pb.Modules[sym.Choice("target", len(pb.Modules))]
+	switch sym.Choice("in-place-change", 3) {
+	case 0:
+		v := sym.U64("new-init")
+		sym.Assume(v != t.InitialBlock)
+		t.InitialBlock = v
+	case 1:
+		v := c06Str("new-entry")
+		sym.Assume(!sym.EqStr(v, t.BinaryEntrypoint))
+		t.BinaryEntrypoint = v
+	default:
+		changed := false
+		for _, in := range t.Inputs {
+			if p := in.GetParams(); p != nil {
+				v := c06Str("new-params")
+				sym.Assume(!sym.EqStr(v, p.Value))
+				p.Value = v
+				changed = true
+			}
+		}
+		if !changed {
+			sym.Assume(false)
+		}
+	}
+	again, ok := hashOn()
+	fresh, ok2 := c06HashAll(pb)
+	if !ok || !ok2 {
+		sym.Unreachable("second-hashing-ok")
+		return
+	}
+	for _, m := range pb.Modules {
+		sym.Assert(sym.EqBytes(again[m.Name], fresh[m.Name]), "identifier-follows-the-current-definition-not-an-earlier-hashing")
+	}
+	sym.Reach("rehashed")
+}
